@@ -163,6 +163,7 @@ type JGenOpts struct {
 	BoundaryDates      bool // the days are drawn from the days around a turn of the year and the end of February (leap years included)
 	LongPrices         bool // some declared prices carry 9-12 decimals (more than the 8 the price arithmetic keeps)
 	CaseVariants       bool // commodities that differ only in letter case (distinct commodities; comparators must not tie on them)
+	Sizes              bool // wide fields (seeded change C09-i capped a column width at 64): one or more account names of 30-300 runes (deep, long segments, non-ASCII of 2-4 bytes), one or two commodity names of 8-40 runes, half of the amounts with 8-40 characters (many digits before/after the point, negative); the lengths cluster around powers of two and typical caps (see jgSize); draws nothing when off
 	BookOut            bool // sometimes empty an A/L account (all its positions or one of them) by transfer bookings, so that accounts which HELD positions get closed (the same day or a later one) and re-opened (seeded change C16-f forgot positions at the start of the closing day); draws nothing when off
 }
 
@@ -217,6 +218,28 @@ func GenJournal(r *RNG, o JGenOpts) (*Journal, []string) {
 			accounts = append(accounts, a)
 		}
 	}
+	if o.Sizes {
+		// one account gets the journal's width (so that the longest name, which is the padding of the printed columns, sits at the
+		// drawn length exactly), a third of the others a width up to it
+		forced, top := r.Intn(len(accounts)), jgSize(r, 30, 300)
+		if o.Accruals && accounts[forced] == accrualAcc {
+			forced = 0
+		}
+		for i := range accounts {
+			if (o.Accruals && accounts[i] == accrualAcc) || !(i == forced || r.Chance(1, 3)) {
+				continue
+			}
+			n := top
+			if i != forced {
+				n = jgSize(r, 30, top)
+			}
+			if w := jgWideAccount(r, accounts[i], n); !accSet[w] {
+				delete(accSet, accounts[i])
+				accSet[w], accounts[i] = true, w
+				tag("wide-account")
+			}
+		}
+	}
 	coms := []string{"CHF"}
 	for _, c := range []string{"USD", "AAPL", "EUR", "GOLD"} {
 		if r.Chance(2, 5) {
@@ -225,6 +248,14 @@ func GenJournal(r *RNG, o JGenOpts) (*Journal, []string) {
 	}
 	if o.Unicode && r.Chance(1, 6) {
 		coms = append(coms, "Ünit")
+	}
+	if o.Sizes {
+		for k := r.Range(1, 2); k > 0; k-- {
+			if w := jgWord(r, jgSize(r, 8, 40), r.Intn(3), true); !contains(coms, w) {
+				coms = append(coms, w)
+				tag("wide-commodity")
+			}
+		}
 	}
 	if o.CaseVariants && r.Chance(1, 2) {
 		coms = append(coms, strings.ToLower(Pick(r, coms)))
@@ -268,6 +299,10 @@ func GenJournal(r *RNG, o JGenOpts) (*Journal, []string) {
 	j := &Journal{}
 	isAL := func(a string) bool { return strings.HasPrefix(a, "Assets") || strings.HasPrefix(a, "Liabilities") }
 	amount := func() string {
+		if o.Sizes && r.Chance(1, 2) {
+			tag("wide-amount")
+			return jgWideAmount(r, jgSize(r, 8, 40))
+		}
 		switch r.Intn(8) {
 		case 0:
 			return "0"
@@ -552,6 +587,96 @@ func GenJournal(r *RNG, o JGenOpts) (*Journal, []string) {
 		tag("mutated:" + mutateJournal(r, j, accounts, coms))
 	}
 	return j, tags
+}
+
+// ---------------------------------------------------------------- wide fields (JGenOpts.Sizes)
+
+// jgSizeCaps: widths at which layout code typically changes behaviour (column minima such as %10s, caps, buffer sizes, one-byte lengths).
+var jgSizeCaps = []int{8, 10, 12, 16, 20, 24, 32, 40, 48, 64, 72, 80, 100, 120, 128, 132, 160, 200, 255, 256, 300}
+
+// jgSize draws a length in [lo, hi]: two times out of three within 2 of one of jgSizeCaps, else uniformly.
+func jgSize(r *RNG, lo, hi int) int {
+	if r.Chance(2, 3) {
+		if n := Pick(r, jgSizeCaps) + r.Range(-2, 2); lo <= n && n <= hi {
+			return n
+		}
+	}
+	return r.Range(lo, hi)
+}
+
+var jgLetters = []rune("abcdefghijklmnopqrstuvwxyzABCDEFGHIJKLMNOPQRSTUVWXYZ")
+var jgDigits = []rune("0123456789")
+var jgWideLetters = []rune("äöüÉéñŻłćßΩλдЖשع日本語한글𝒜𐐀") // letters of 2, 3 and 4 bytes in UTF-8
+var jgWideDigits = []rune("٣५９")                      // unicode.IsDigit, not ASCII
+
+// jgWord draws n runes of letters and digits: style 0 ASCII, 1 mixed, 2 non-ASCII only. letterFirst: the first rune is a letter.
+func jgWord(r *RNG, n, style int, letterFirst bool) string {
+	var b strings.Builder
+	for i := 0; i < n; i++ {
+		wide := style == 2 || (style == 1 && r.Chance(1, 3))
+		digit := !(i == 0 && letterFirst) && r.Chance(1, 6)
+		switch {
+		case wide && digit:
+			b.WriteRune(Pick(r, jgWideDigits))
+		case wide:
+			b.WriteRune(Pick(r, jgWideLetters))
+		case digit:
+			b.WriteRune(Pick(r, jgDigits))
+		default:
+			b.WriteRune(Pick(r, jgLetters))
+		}
+	}
+	return b.String()
+}
+
+// jgWideAccount extends the account name a by further segments to exactly n runes (a is returned if it is already that long):
+// many short segments (deep), one long segment, or segments of 5-40 runes; ASCII, mixed or non-ASCII.
+func jgWideAccount(r *RNG, a string, n int) string {
+	shape, style := r.Intn(3), r.Intn(3)
+	for {
+		rem := n - len([]rune(a))
+		if rem <= 0 {
+			return a
+		}
+		if rem == 1 { // no room for ":" and a rune: lengthen the last segment
+			return a + jgWord(r, 1, style, false)
+		}
+		k := rem - 1
+		switch shape {
+		case 0:
+			k = min(k, r.Range(1, 4))
+		case 1:
+			k = min(k, r.Range(5, 40))
+		}
+		a += ":" + jgWord(r, k, style, false)
+	}
+}
+
+// jgWideAmount draws a decimal literal of n >= 4 characters: integer, 0.ddd, or digits on both sides; a third negative; no leading zero.
+func jgWideAmount(r *RNG, n int) string {
+	s := ""
+	if r.Chance(1, 3) {
+		s, n = "-", n-1
+	}
+	num := func(k int, nonzeroFirst bool) string {
+		b := make([]byte, k)
+		for i := range b {
+			b[i] = byte('0' + r.Intn(10))
+		}
+		if nonzeroFirst && b[0] == '0' {
+			b[0] = byte('1' + r.Intn(9))
+		}
+		return string(b)
+	}
+	switch r.Intn(4) {
+	case 0:
+		return s + num(n, true)
+	case 1:
+		return s + "0." + num(n-2, false)
+	default:
+		i := r.Range(1, n-2)
+		return s + num(i, true) + "." + num(n-1-i, false)
+	}
 }
 
 // mutateJournal applies one targeted mutation; the result may or may not be well-formed.
